@@ -57,6 +57,10 @@ def inPF11 (pt : PT) (cm : List (Chan × Option Chan)) : Bool := !(pf11Chans pt 
 
 def pf11Pt : PT :=
   .arith none (.parallel none (.func none "A" (.lit 2) (.var "t") [] []) [("B", .lit 1)]) .times (.uniform (.lit 2)) false
+/-- the same tree with an arithmetic that touches `A` only: outside the class of PF-11 -/
+def pf11SafePt : PT :=
+  .arith none (.parallel none (.func none "A" (.lit 2) (.var "t") [] []) [("B", .lit 1)]) .plus
+    (.perChan [("A", .lit 1)]) true
 def pf11Prog : Loop :=
   .mk 1 none [] [.mk 1 (some (.trafo (.func "A" 2 (.var "t") [])
     [.scaling [("A", 2), ("B", 2)], .parallel [("B", 1)]])) [] []]
